@@ -70,7 +70,7 @@ func ruleC07(c *Ctx) {
 	c.rule("C07-R6", "who-may-call: decrypt routines are called only from decryptAssertions (and each other) with the certificate produced by getDecryptCert")
 
 	// --- R1, R3 on decryptAssertions
-	da := c.kernel("(*SAMLServiceProvider).decryptAssertions", "xmlUnmarshalElement")
+	da := c.kernel("(*SAMLServiceProvider).decryptAssertions", "*", "-(*SAMLServiceProvider).getDecryptCert", "-types.(*EncryptedAssertion).DecryptBytes", "-parseResponse")
 	if da != nil {
 		fname := shortFn(da.Root)
 		nIter := 0
@@ -234,7 +234,7 @@ func ruleC07(c *Ctx) {
 	}
 
 	// --- R4 recipient guard
-	dk := c.kernel("types.(*EncryptedKey).DecryptSymmetricKey")
+	dk := c.kernel("types.(*EncryptedKey).DecryptSymmetricKey", "*")
 	if dk != nil {
 		fname := shortFn(dk.Root)
 		n := 0
@@ -282,13 +282,20 @@ func ruleC07(c *Ctx) {
 	keyStructRule(c, "C07-R4/key-struct")
 
 	// --- R5 getDecryptCert
-	gc := c.kernel("(*SAMLServiceProvider).getDecryptCert")
+	gc := c.kernel("(*SAMLServiceProvider).getDecryptCert", "*")
 	if gc != nil {
 		fname := shortFn(gc.Root)
 		var on []*Terminal
 		nOn := 0
 		for _, t := range gc.Terms {
 			a := t.atoms()
+			if t.accepting(gc.Root) {
+				// every accepting path consults the option and returns a certificate built in this call
+				c.check(a["SP.ValidateEncryptionCert"] || a["!(SP.ValidateEncryptionCert)"], "C07-R5", fname, "every accept consults ValidateEncryptionCert", c.P.InstrPos(t.Instr), "option tested",
+					"a path of getDecryptCert returns a certificate without consulting ValidateEncryptionCert (e.g. a cached certificate): the validity check is skipped")
+				_, fresh := t.Vals[0].(*AllocV)
+				c.check(fresh, "C07-R5", fname, "returned certificate is built in this call", c.P.InstrPos(t.Instr), ap(t.Vals[0]), "getDecryptCert returns "+ap(t.Vals[0])+", not a certificate assembled (and validated) in this call")
+			}
 			if !a["SP.ValidateEncryptionCert"] {
 				continue
 			}
@@ -640,7 +647,7 @@ func renderBase(v ssa.Value) string {
 
 // keyStructRule: DecryptSymmetricKey runs on &ea.EncryptedKey when it has a CipherValue, else on &ea.DetEncryptedKey.
 func keyStructRule(c *Ctx, rule string) {
-	db := c.kernel("types.(*EncryptedAssertion).DecryptBytes")
+	db := c.kernel("types.(*EncryptedAssertion).DecryptBytes", "*", "-types.(*EncryptedKey).DecryptSymmetricKey")
 	if db == nil {
 		return
 	}
